@@ -23,6 +23,7 @@ TECHNIQUE += '; cut scoping of the context managers generated parsers run on (= 
 LEVEL_TEXT += ' Added clause: the runtime the shipped bootstrap runs on scopes cuts as the model does.'
 TECHNIQUE += "; who-may-read: the grammar actions read nothing of the running parser's configuration"
 LEVEL_TEXT += ' Added clause: the model a text compiles to does not depend on which of the three parsers read it.'
+LEVEL_TEXT += ' Added clauses (rounds 9-11): the generator emits, for every node class, the run-time primitive the model uses.'
 TECHNIQUE += '; unset and empty namechars are the same to both inputs (= C09.R2c)'
 TECHNIQUE += '; the generator emits for every node class the run-time primitive the model uses (C15.R10 = C02.R2)'
 LEVEL_NOTE = ('Trusted: the three front-ends of the checker (EBNF reader written from docs/syntax.rst, decompiler of the emitted '
